@@ -52,11 +52,39 @@ MUTANTS = [
      "        data = []\n        for pipe in self.connections:\n            pipe.send(D)\n            data.append(pipe.recv())"),
 ]
 
+MUTANTS += [
+    # ---- the repaired defects must be re-detected when a fix is undone
+    ("revert_pickle_printer", "C08", "REVERT", "picklable when display is off", ""),
+    ("revert_metropolis_probs", "C03", "REVERT", "MetropolisChain.take_step records", ""),
+    ("revert_pca_one_param", "C15", "REVERT", "single parameter", ""),
+    ("revert_ensemble_advance0", "C15", "REVERT", "advance(0) on a fresh sampler", ""),
+    ("revert_ensemble_copy", "C03", "REVERT", "own copy of the starting positions", ""),
+    ("revert_hmc_squeeze", "C14", "REVERT", "get_parameter returns a 1-D array", ""),
+    ("revert_load_printer", "C09", "REVERT", "get their progress printer", ""),
+    ("revert_pca_save_covar", "C09", "REVERT", "saved before its first direction update", ""),
+    ("revert_hmc_load_mass", "C09", "REVERT", "restores the particle mass", ""),
+    ("revert_ensemble_load", "C09", "REVERT", "restores chain_length and failed_updates", ""),
+    ("revert_get_interval", "C14", "REVERT", "get_interval with a requested sample count", ""),
+    ("revert_run_for_zero", "C15", "REVERT", "already exhausted time budget", ""),
+    ("revert_run_for_slow", "C15", "REVERT", "longer than a second", ""),
+    ("revert_gibbs_limits", "C09", "REVERT", "no longer cancel each other", ""),
+]
+
 # the last one is behaviour-preserving (serial request/response): the check must NOT alarm
 EQUIVALENT = {"pt_recv_position_before_send_all"}
 
 
 def apply(copy, file, old, new):
+    if file == "REVERT":  # undo one fix commit (old = substring of its subject)
+        log = subprocess.run(["git", "-C", REPO, "log", "--format=%h %s"], capture_output=True, text=True).stdout.splitlines()
+        hit = [l.split(" ", 1)[0] for l in log if old in l]
+        if len(hit) != 1:
+            raise SystemExit("revert pattern %r matches %d commits" % (old, len(hit)))
+        diff = subprocess.run(["git", "-C", REPO, "diff", hit[0], hit[0] + "^", "--", "inference"], capture_output=True, text=True).stdout
+        r = subprocess.run(["patch", "-p1", "-s", "-d", copy], input=diff, capture_output=True, text=True)
+        if r.returncode != 0:
+            raise SystemExit("revert of %s does not apply: %s" % (hit[0], r.stdout + r.stderr))
+        return
     p = os.path.join(copy, file)
     s = open(p).read()
     if s.count(old) != 1:
